@@ -190,6 +190,18 @@ class HoistSetupCallsIntoConditionals(RewritePattern):
         # region would execute it on paths that did not execute it before
         if op.parent_block() is not op.in_state.owner.parent_block():
             return
+        # the values the setup uses must already be available inside the scf.if, i.e. they
+        # must not be computed between the scf.if and the setup
+        block = op.parent_block()
+        assert block is not None
+        if_index = block.get_operation_index(op.in_state.owner)
+        for val in op.values:
+            if (
+                isinstance(val, OpResult)
+                and val.op.parent_block() is block
+                and block.get_operation_index(val.op) > if_index
+            ):
+                return
         # grab some helper vars
         old_in_state = op.in_state
         assert isinstance(old_in_state, OpResult)
